@@ -177,8 +177,21 @@ func mkString(b []value) value {
 	return symstr{append([]value(nil), b...)}
 }
 
+// opaqueStr is text whose content the engine does not know: the rendering of
+// a symbolic number (fmt, strconv.Format*, Duration.String). It can be stored,
+// passed around and concatenated; any inspection of its content or length
+// ends the path as "unsupported" (reported as INCONCLUSIVE), so nothing is
+// ever concluded from a made-up rendering.
+type opaqueStr struct{ why string }
+
+func opaqueAbort(o opaqueStr) {
+	panic(pathAbort{abUnsupported, "inspection of opaque text (" + o.why + ")"})
+}
+
 func strBytes(s value) []value {
 	switch s := s.(type) {
+	case opaqueStr:
+		opaqueAbort(s)
 	case string:
 		out := make([]value, len(s))
 		for i := 0; i < len(s); i++ {
@@ -193,6 +206,8 @@ func strBytes(s value) []value {
 
 func strLen(s value) int {
 	switch s := s.(type) {
+	case opaqueStr:
+		opaqueAbort(s)
 	case string:
 		return len(s)
 	case symstr:
@@ -203,13 +218,19 @@ func strLen(s value) int {
 
 func isStr(v value) bool {
 	switch v.(type) {
-	case string, symstr:
+	case string, symstr, opaqueStr:
 		return true
 	}
 	return false
 }
 
 func strConcat(a, b value) value {
+	if o, ok := a.(opaqueStr); ok {
+		return o
+	}
+	if o, ok := b.(opaqueStr); ok {
+		return o
+	}
 	if as, ok := a.(string); ok {
 		if bs, ok := b.(string); ok {
 			return as + bs
@@ -224,6 +245,8 @@ func strConcat(a, b value) value {
 
 func strSlice(s value, lo, hi int) value {
 	switch s := s.(type) {
+	case opaqueStr:
+		opaqueAbort(s)
 	case string:
 		return s[lo:hi]
 	case symstr:
